@@ -1582,8 +1582,10 @@ int state_sync(struct snapraid_state* state, block_off_t blockstart, block_off_t
 			/* LCOV_EXCL_STOP */
 		}
 
-		/* number of block in the parity file */
-		parity_size(&parity_handle[l], &out_size);
+		/* number of block really present in the parity file */
+		/* note that we cannot trust the size stored in the content file, */
+		/* because the parity file may have been truncated or lost */
+		parity_valid_size(&parity_handle[l], &out_size);
 		parityblocks = out_size / state->block_size;
 
 		/* if the file is too small */
